@@ -597,7 +597,8 @@ impl Evaluator<'_, '_, '_, '_> {
                 // Safety: index has been generated during compilation and is valid.
                 let from = self.evaluate_expr(from)?.unwrap_number()?;
                 let to = self.evaluate_expr(to)?.unwrap_number()?;
-                match (usize::try_from(from), usize::try_from(to)) {
+                // A negative lower bound does not restrict anything, as for `#a in (from..to)`.
+                match (usize::try_from(from.max(0)), usize::try_from(to)) {
                     (Ok(from), Ok(to)) if from <= to => {
                         let var_index = self.get_variable_index(*variable_index)?;
                         self.get_var_matches()
